@@ -1242,48 +1242,51 @@ Proof.
   - exact B2.
 Qed.
 
-Lemma direct_writes_parts san now db rs w :
+Lemma direct_writes_parts v san now db rs w :
   Forall (rec_wf san now) rs -> In (Some w) (direct_writes db rs) ->
   exists meas cols, bw_parts san now w = Some (db, meas, cols) /\
-                    (meas = [] \/ In meas (flat_map rec_measurements rs)).
+                    ((v_empty_meas_checked v = false /\ meas = []) \/ In meas (flat_map (rec_measurements v) rs)).
 Proof.
   unfold direct_writes. induction 1 as [|r rs Hr Hrs IH]; cbn [flat_map]; [intros []|].
   rewrite in_app_iff. intros [Hin|Hin].
   - destruct r as [m cols [top|]| |]; cbn in Hin; try tauto; destruct Hin as [Hin|[]]; inversion Hin; subst; clear Hin.
     + cbn in Hr. exists m, cols. cbn [bw_parts]. rewrite Hr. split; [reflexivity|].
-      cbn [rec_measurements]. destruct m; [left; reflexivity|right; cbn; left; reflexivity].
+      cbn [rec_measurements]. destruct m; cbn [nonempty orb]; [|right; cbn; left; reflexivity].
+      destruct (v_empty_meas_checked v); [right; cbn; left; reflexivity|left; split; reflexivity].
     + exists m, cols. split; [reflexivity|].
-      cbn [rec_measurements]. destruct m; [left; reflexivity|right; cbn; left; reflexivity].
+      cbn [rec_measurements]. destruct m; cbn [nonempty orb]; [|right; cbn; left; reflexivity].
+      destruct (v_empty_meas_checked v); [right; cbn; left; reflexivity|left; split; reflexivity].
   - destruct (IH Hin) as [meas [cols [H1 H2]]]. exists meas, cols. split; [exact H1|].
     destruct H2 as [H2|H2]; [left; exact H2|right; apply in_app_iff; right; exact H2].
 Qed.
 
-Lemma row_group_names_meas rs m :
-  In m (row_group_names rs) -> m = [] \/ In m (flat_map rec_measurements rs).
+Lemma row_group_names_meas v rs m :
+  In m (row_group_names rs) -> (v_empty_meas_checked v = false /\ m = []) \/ In m (flat_map (rec_measurements v) rs).
 Proof.
   unfold row_group_names. rewrite dedup_in. intros [[]|Hin].
   induction rs as [|r rs IH]; cbn [flat_map] in *; [destruct Hin|].
   rewrite in_app_iff in Hin. destruct Hin as [Hin|Hin].
   - destruct r as [? ? ?|m' ts tags fields|?]; cbn in Hin; try tauto. destruct Hin as [->|[]].
-    destruct m; [left; reflexivity|right; cbn; left; reflexivity].
+    cbn [rec_measurements]. destruct m; cbn [nonempty orb]; [|right; cbn; left; reflexivity].
+    destruct (v_empty_meas_checked v); [right; cbn; left; reflexivity|left; split; reflexivity].
   - destruct (IH Hin) as [H|H]; [left; exact H|right; apply in_app_iff; right; exact H].
 Qed.
 
-Lemma msg_writes_parts san now db rs w :
+Lemma msg_writes_parts v san now db rs w :
   Forall (rec_wf san now) rs -> In (Some w) (msg_writes db rs) ->
   exists meas cols, bw_parts san now w = Some (db, meas, cols) /\
-                    (meas = [] \/ In meas (dedup (flat_map rec_measurements rs) [])).
+                    ((v_empty_meas_checked v = false /\ meas = []) \/ In meas (dedup (flat_map (rec_measurements v) rs) [])).
 Proof.
   intros Hwf Hin. unfold msg_writes in Hin.
   assert (Hcase : In (Some w) (fst (upto_none (direct_writes db rs))) \/
                   In (Some w) (map (fun m => Some (BRows db m (rows_to_columnar m rs))) (row_group_names rs))).
   { destruct (snd (upto_none (direct_writes db rs))); [apply in_app_iff in Hin; exact Hin|left; exact Hin]. }
   destruct Hcase as [H|H].
-  - apply upto_none_in in H. destruct (direct_writes_parts san now db rs w Hwf H) as [meas [cols [H1 H2]]].
+  - apply upto_none_in in H. destruct (direct_writes_parts v san now db rs w Hwf H) as [meas [cols [H1 H2]]].
     exists meas, cols. split; [exact H1|]. destruct H2 as [H2|H2]; [left; exact H2|right; apply dedup_in; right; exact H2].
   - apply in_map_iff in H. destruct H as [m [Hm Hin']]. inversion Hm; subst.
     exists m, (rows_to_columnar m rs). split; [reflexivity|].
-    destruct (row_group_names_meas rs m Hin') as [H|H]; [left; exact H|right; apply dedup_in; right; exact H].
+    destruct (row_group_names_meas v rs m Hin') as [H|H]; [left; exact H|right; apply dedup_in; right; exact H].
 Qed.
 
 Lemma decode_payload_wf san now payload rs :
@@ -1302,13 +1305,14 @@ Qed.
 
 Definition ok_status (f : fres) : Prop := f_writes f <> [].
 
-Theorem live_routing : forall san now aa al r f,
-  front san now aa al r = Some f ->
+Theorem live_routing : forall v san now aa al r f,
+  front v san now aa al r = Some f ->
   (forall w, In (Some w) (f_writes f) ->
-     exists meas cols, bw_parts san now w = Some (f_db f, meas, cols) /\ (meas = [] \/ In meas (f_checked f))) /\
+     exists meas cols, bw_parts san now w = Some (f_db f, meas, cols) /\
+                       ((v_empty_meas_checked v = false /\ meas = []) \/ In meas (f_checked f))) /\
   (f_writes f <> [] -> forallb (allowed aa al (f_db f)) (f_checked f) = true).
 Proof.
-  intros san now aa al r f H.
+  intros v san now aa al r f H.
   destruct r as [ep qdb hdb pr fm pts|hdb payload]; cbn [front] in H.
   - set (db := match ep with
                | LPv1 | LPv2 => match hdb with [] => or_default qdb | _ => hdb end
@@ -1333,12 +1337,12 @@ Proof.
   - destruct (decode_payload san now payload) as [[rs|]|] eqn:Ed; [|inversion H; subst; split; [intros w []|intros X; cbn in X; congruence]|discriminate].
     pose proof (decode_payload_wf san now payload rs Ed) as Hwf.
     destruct (negb (valid_db (or_default hdb))); [inversion H; subst; split; [intros w []|intros X; cbn in X; congruence]|].
-    destruct (forallb valid_meas (dedup (flat_map rec_measurements rs) [])); cbn [negb] in H;
+    destruct (forallb valid_meas (dedup (flat_map (rec_measurements v) rs) [])); cbn [negb] in H;
       [|inversion H; subst; split; [intros w []|intros X; cbn in X; congruence]].
-    destruct (forallb (allowed aa al (or_default hdb)) (dedup (flat_map rec_measurements rs) [])) eqn:Eal; cbn [negb] in H;
+    destruct (forallb (allowed aa al (or_default hdb)) (dedup (flat_map (rec_measurements v) rs) [])) eqn:Eal; cbn [negb] in H;
       [|inversion H; subst; split; [intros w []|intros X; cbn in X; congruence]].
     inversion H; subst; clear H. cbn [f_writes f_db f_checked]. split.
-    + intros w Hin. apply (msg_writes_parts san now _ rs w Hwf Hin).
+    + intros w Hin. apply (msg_writes_parts v san now _ rs w Hwf Hin).
     + intros _. exact Eal.
 Qed.
 
@@ -1366,10 +1370,11 @@ Qed.
 
 (* every row a replica stores for a row-format entry (every line-protocol write, every
    msgpack row / batch write) lies in database "default", whatever the request named *)
-Theorem replicated_rows_default : forall san now recs r,
-  In r (apply_replicated san now (ERows recs)) -> fst (r_dir r) = k_default.
+Theorem replicated_rows_default : forall v san now recs r,
+  v_repl_rows v = false ->
+  In r (apply_replicated v san now (ERows recs)) -> fst (r_dir r) = k_default.
 Proof.
-  intros san now recs r. cbn [apply_replicated]. generalize (group_names recs []). intros ms.
+  intros v san now recs r Hv. cbn [apply_replicated]. rewrite Hv. generalize (group_names recs []). intros ms.
   induction ms as [|m ms IH]; cbn [apply_groups]; [intros []|].
   destruct (rows_to_columns (filter (fun r0 => bytes_eqb (rec_meas_repl r0) m) recs)) as [|c cs] eqn:Ec; [exact IH|].
   destruct (write_nowal san true now k_default m (c :: cs)) as [[rows sg]|] eqn:Ew; [|intros []].
@@ -1379,13 +1384,13 @@ Proof.
 Qed.
 
 (* a raw columnar entry is applied on the replica exactly as the writer stored it *)
-Theorem replicated_raw_equals_live : forall san now now' db top rows sg,
+Theorem replicated_raw_equals_live : forall v san now now' db top rows sg,
   raw_guard v_current db top ->
   (exists s, lookupb k_m top = Some (GStr s) /\ nonempty s = true) ->
   live_batch san now (BRaw db top) = Some (rows, sg) ->
-  apply_replicated san now' (EEnv db top) = rows.
+  apply_replicated v san now' (EEnv db top) = rows.
 Proof.
-  intros san now now' db top rows sg [Hdb [[l [tc [Hcols [Ht Htne]]]] Hm]] [s [Hs Hsne]] Hlive.
+  intros v san now now' db top rows sg [Hdb [[l [tc [Hcols [Ht Htne]]]] Hm]] [s [Hs Hsne]] Hlive.
   unfold live_batch in Hlive. cbn [bw_parts] in Hlive. unfold raw_parts in Hlive. rewrite Hcols in Hlive.
   destruct (decode_columnar san now top (array_cols l)) as [[meas cols]|] eqn:Hd; [|discriminate].
   destruct (decode_columnar_inv san now top _ meas cols Hd tc Ht Htne)
@@ -1393,7 +1398,8 @@ Proof.
   destruct (convert (sanitize_cols san cols2)) as [t|] eqn:Hc; [|discriminate].
   inversion Hlive; subst rows sg; clear Hlive.
   rewrite Hs in Hem. cbn in Hem. inversion Hem; subst meas.
-  cbn [apply_replicated]. rewrite Hs, Hcols, Hsne.
+  cbn [apply_replicated]. rewrite Hs. cbn [extract_meas]. replace (if v_int_m v then Some s else Some s) with (Some s) by (destruct (v_int_m v); reflexivity).
+  rewrite Hcols, Hsne.
   assert (Hl0 : Nat.eqb (length l) 0 = false).
   { destruct l; [cbn in Ec; discriminate|reflexivity]. }
   assert (Ha0 : Nat.eqb (length (array_cols l)) 0 = false) by (rewrite Ec; reflexivity).
@@ -1446,7 +1452,7 @@ Definition replayed (v : variant) (w : bwrite) : list srow :=
   batch_rows (fst (replay_file v idsan 0 (wal_entries v w))).
 
 Ltac all_variants v H :=
-  destruct v as [f1 f2 f3 f4 f5]; cbn in H; subst; repeat match goal with b : bool |- _ => destruct b end.
+  destruct v as [f1 f2 f3 f4 f5 f6 f7 f8]; cbn in H; subst; repeat match goal with b : bool |- _ => destruct b end.
 
 Lemma routing_refuted : forall v, v_routing_last v = false ->
   option_map (map r_dir) (live_rows idsan 0 w_routing) = Some [(b_mydb, b_cpu); (b_mydb, b_cpu)] /\
@@ -1474,7 +1480,7 @@ Lemma mixed_refuted : forall v,
     = Some [Some (CInt 1); Some (CInt 1)] /\
   map (fun r => lookupb b_v (r_cells r)) (replayed v w_mixed)
     = [Some (CInt 1); Some (CFloat 4609434218613702656%N)].
-Proof. intros v. destruct v as [[] [] [] [] []]; vm_compute; split; reflexivity. Qed.
+Proof. intros v. destruct v as [[] [] [] [] [] [] [] []]; vm_compute; split; reflexivity. Qed.
 
 (* the crash window: write, crash, restart and replay, crash again before the flush *)
 Definition h_window : list event :=
@@ -1508,24 +1514,154 @@ Qed.
 Definition h_poison : list event :=
   [EStart false false; EWrite 0 [w_poison] true; EWrite 0 [w_plain] true].
 
-Lemma poison_refuted : forall v,
+Lemma poison_refuted : forall v, v_convert_first v = false ->
   List.length (s_due (run_events v idsan st0 h_poison)) = 1%nat /\
   s_store (run_events v idsan st0 (h_poison ++ restart 0)) = [] /\
   List.length (s_files (run_events v idsan st0 (h_poison ++ restart 0))) = 1%nat.
-Proof. intros v. destruct v as [[] [] [] [] []]; vm_compute; repeat split; reflexivity. Qed.
+Proof. intros v H. all_variants v H; vm_compute; repeat split; reflexivity. Qed.
 
 (* C32: an empty measurement is neither validated nor permission-checked *)
 Definition r_empty_meas : hreq :=
   HMsg b_mydb (GMap [(k_m, GStr []); (k_columns, GMap [(k_time, GArr [GInt t0]); (b_v, GArr [GInt 1])])]).
 
 Lemma empty_measurement_unchecked :
-  exists f w, front idsan 0 false [] r_empty_meas = Some f /\ f_status f = 204 /\ f_checked f = [] /\
-              f_writes f = [Some w] /\ option_map (fun p => snd (fst p)) (bw_parts idsan 0 w) = Some [] /\
-              option_map (map r_dir) (live_rows idsan 0 w) = Some [(b_mydb, [])].
-Proof. eexists. eexists. vm_compute. repeat split; reflexivity. Qed.
+  match front v_current idsan 0 false [] r_empty_meas with
+  | Some f =>
+      f_status f = 204 /\ f_checked f = [] /\
+      match f_writes f with
+      | [Some w] => option_map (fun p => snd (fst p)) (bw_parts idsan 0 w) = Some [] /\
+                    option_map (map r_dir) (live_rows idsan 0 w) = Some [(b_mydb, [])]
+      | _ => False
+      end
+  | None => False
+  end.
+Proof. vm_compute. repeat split; reflexivity. Qed.
 
 (* C32: the replica stores the rows of a line-protocol write to mydb under "default" *)
 Lemma replicated_refuted :
   option_map (map r_dir) (live_rows idsan 0 w_plain) = Some [(b_mydb, b_mem)] /\
-  map r_dir (flat_map (apply_replicated idsan 0) (wal_entries v_current w_plain)) = [(k_default, b_mem)].
+  map r_dir (flat_map (apply_replicated v_current idsan 0) (wal_entries v_current w_plain)) = [(k_default, b_mem)].
 Proof. vm_compute. split; reflexivity. Qed.
+
+(* ------------------------------------------------------------------------------------ *)
+(* the repaired replica route                                                             *)
+
+Lemma wal_row_keys v db meas cols n i :
+  all_len n cols = true -> (i < n)%nat ->
+  (v_routing_last v = true \/ forallb (fun nc => keep_col (fst nc)) cols = true) ->
+  str_key k_umeas (wal_row v db meas cols i) = meas /\ str_key k_udb (wal_row v db meas cols i) = db.
+Proof.
+  intros Hl Hi Hr. unfold wal_row. cbv zeta. rewrite (cols_row_rect n cols i Hl Hi).
+  destruct (v_routing_last v) eqn:Erl; [split; reflexivity|].
+  destruct Hr as [Hr|Hr]; [congruence|].
+  assert (Hnk : forall k, is_routing_u k = true -> lookupb k (row_kv cols i) = None).
+  { intros k Hk. apply (lookupb_notkey keep_col); [rewrite forallb_row_kv; exact Hr|].
+    unfold keep_col. rewrite Hk. reflexivity. }
+  assert (Hf : filter (fun kv => negb (has_key (fst kv) (row_kv cols i))) (routing db meas) = routing db meas).
+  { cbn [routing filter fst]. unfold has_key. rewrite (Hnk k_udb eq_refl), (Hnk k_umeas eq_refl). reflexivity. }
+  rewrite Hf. unfold str_key. rewrite !lookupb_app, (Hnk k_udb eq_refl), (Hnk k_umeas eq_refl). split; reflexivity.
+Qed.
+
+Lemma repl_target_wal_row v dflt db meas cols n i :
+  nonempty db = true -> nonempty meas = true ->
+  all_len n cols = true -> (i < n)%nat ->
+  (v_routing_last v = true \/ forallb (fun nc => keep_col (fst nc)) cols = true) ->
+  repl_target dflt (wal_row v db meas cols i) = Some (db, meas).
+Proof.
+  intros Hdb Hmeas Hl Hi Hr. destruct (wal_row_keys v db meas cols n i Hl Hi Hr) as [Hum Hud].
+  unfold repl_target, rec_route. cbv beta zeta. rewrite Hum, Hud.
+  repeat (rewrite ?Hmeas, ?Hdb; cbn [negb orb andb v_strict_keys strict_v]; cbv iota). reflexivity.
+Qed.
+
+Lemma apply_targets_dirs san now dflt recs ts r :
+  In r (apply_targets san now dflt recs ts) -> In (r_dir r) ts.
+Proof.
+  induction ts as [|t ts IH]; cbn [apply_targets]; [intros []|].
+  match goal with |- context [strict_columns ?rows] => destruct (strict_columns rows) as [|c cs] eqn:Ec end;
+    [intros H; right; exact (IH H)|].
+  destruct (write_nowal san false now (fst t) (snd t) (c :: cs)) as [[rows sg]|] eqn:Ew; [|intros []].
+  cbn [fst]. rewrite in_app_iff. intros [Hin|Hin]; [left|right; exact (IH Hin)].
+  pose proof (write_nowal_dirs _ _ _ _ _ _ _ _ Ew) as Hd. rewrite Forall_forall in Hd.
+  rewrite (Hd r Hin). destruct t; reflexivity.
+Qed.
+
+Lemma group_targets_in dflt recs : forall acc t,
+  In t (group_targets dflt recs acc) -> In t acc \/ exists rec, In rec recs /\ repl_target dflt rec = Some t.
+Proof.
+  induction recs as [|rec recs IH]; intros acc t; cbn [group_targets]; [tauto|].
+  intros H. apply IH in H. destruct H as [H|[rec' [H1 H2]]]; [|right; exists rec'; split; [right; exact H1|exact H2]].
+  destruct (repl_target dflt rec) as [t'|] eqn:Et; [|left; exact H].
+  destruct (existsb (dir_t_eqb t') acc); [left; exact H|].
+  apply in_app_iff in H. destruct H as [H|[H|[]]]; [left; exact H|].
+  right. exists rec. split; [left; reflexivity|congruence].
+Qed.
+
+(* with the replica repair (and routing keys that cannot be overwritten) every replicated row
+   of a row-format write lands under the database and measurement of the request *)
+Theorem replicated_rows_fixed : forall v san now db meas cols n r,
+  v_repl_rows v = true ->
+  nonempty db = true -> nonempty meas = true -> all_len n cols = true ->
+  (v_routing_last v = true \/ forallb (fun nc => keep_col (fst nc)) cols = true) ->
+  In r (flat_map (apply_replicated v san now) (wal_entries v (BRows db meas cols))) ->
+  r_dir r = (db, meas).
+Proof.
+  intros v san now db meas cols n r Hv Hdb Hmeas Hl Hr Hin.
+  unfold wal_entries in Hin.
+  destruct cols as [|[n0 c0] rest] eqn:Ecols; [destruct Hin|]. rewrite <- Ecols in *.
+  assert (Hcne : cols <> []) by (rewrite Ecols; discriminate).
+  rewrite (wal_rows_seq v db meas cols n Hcne Hl) in Hin.
+  destruct (map (wal_row v db meas cols) (seq 0 n)) as [|r0 rs] eqn:Em; [destruct Hin|].
+  rewrite <- Em in Hin. cbn [flat_map apply_replicated] in Hin. rewrite Hv, app_nil_r in Hin.
+  apply apply_targets_dirs in Hin. apply group_targets_in in Hin. destruct Hin as [[]|[rec [Hrec Ht]]].
+  apply in_map_iff in Hrec. destruct Hrec as [i [<- Hi]]. apply in_seq in Hi.
+  rewrite (repl_target_wal_row v k_default db meas cols n i Hdb Hmeas Hl) in Ht by (try assumption; lia).
+  congruence.
+Qed.
+
+(* ------------------------------------------------------------------------------------ *)
+(* packaged statements                                                                    *)
+
+Theorem replay_equals_live : forall v san now now' w rows sg,
+  bw_guard v san w -> live_batch san now w = Some (rows, sg) ->
+  exists bs, replay_file v san now' (wal_entries v w) = (bs, true) /\ batch_rows bs = rows.
+Proof.
+  intros v san now now' [db meas cols|db top] rows sg G Hl.
+  - eapply replay_rows_equals_live; eassumption.
+  - exists [(rows, sg)]. split; [eapply replay_raw_equals_live; eassumption|].
+    unfold batch_rows. cbn. apply app_nil_r.
+Qed.
+
+Lemma Forall_firstn {A} (P : A -> Prop) k l : Forall P l -> Forall P (firstn k l).
+Proof. revert k. induction l as [|x l IH]; intros [|k] H; cbn; try constructor; inversion H; subst; auto. Qed.
+
+Theorem crash_any_prefix : forall v san evs k now,
+  Forall (ev_guard v san) evs ->
+  (v_flush_before_delete v = true \/ quiet v san st0 (firstn k evs ++ [ECrash])) ->
+  sub_ms (s_due (run_events v san st0 (firstn k evs)))
+         (s_store (run_events v san st0 (firstn k evs ++ restart now))).
+Proof. intros v san evs k now G Q. apply crash_any_point; [apply Forall_firstn; exact G|exact Q]. Qed.
+
+(* replayed rows land in the directories the live rows were stored in *)
+Theorem replay_dirs : forall v san now now' w rows sg bs,
+  bw_guard v san w -> live_batch san now w = Some (rows, sg) ->
+  replay_file v san now' (wal_entries v w) = (bs, true) ->
+  map r_dir (batch_rows bs) = map r_dir rows.
+Proof.
+  intros v san now now' w rows sg bs G Hl Hr.
+  destruct (replay_equals_live v san now now' w rows sg G Hl) as [bs' [Hb He]].
+  rewrite Hr in Hb. inversion Hb; subst. reflexivity.
+Qed.
+
+(* with the proposed repairs the name- and time-related guards disappear *)
+Theorem fixed_rows_guard : forall san db meas cols,
+  nonempty db = true -> nonempty meas = true -> NoDup (map fst cols) ->
+  (exists tc, lookupb k_time cols = Some tc /\ tc <> []) ->
+  (exists n, all_len n cols = true) ->
+  forallb (fun nc => homog_col (snd nc)) cols = true ->
+  clean_cols san cols ->
+  rows_guard v_fixed san db meas cols.
+Proof.
+  intros san db meas cols H1 H2 H3 [tc [H4 H5]] H6 H7 H8. unfold rows_guard.
+  repeat split; try assumption; try (left; reflexivity).
+  exists tc. repeat split; try assumption. left; reflexivity.
+Qed.
